@@ -202,6 +202,19 @@ theorem fixed_D7 :
     d7Resolve Holder.aliasMappingFixed "q1" = ["sch1.foo.x"] ∧ d7Resolve Holder.aliasMappingFixed "tab" = ["sch1.foo.x"] := by
   decide
 
+open Holder in
+/-- `… from t2 left join s2.t2 q1 …`: what `t2.c` resolves to — the table without alias, or the one only reachable as `q1` -/
+def d7ResolveDefault (am : LGraph → List DObj → AliasMap) : List String :=
+  let grp := [Walk.mkTable {} ["t2"] none, Walk.mkTable {} ["s2", "t2"] (some "q1")]
+  (toSourceColumns Gen.Const.schemaUnknown (am (grp.foldl addReadO Graph.empty) grp) (ColSpec.of "c" [("c", some "t2")])).map
+    Column.printed
+
+/-- the second face of D7: the DEFAULT alias of an un‑aliased table is overridden by the bare name of an aliased one
+    (adding an alias to `t2` changes the answer); the repaired map gives the table without alias -/
+theorem dev_D7_default :
+    d7ResolveDefault Holder.aliasMappingOrig = ["s2.t2.c"] ∧ d7ResolveDefault Holder.aliasMappingFixed = ["<default>.t2.c"] := by
+  decide
+
 /-- **the repaired map, for all holders and groups**: an alias written in the query resolves to the (last) relation that
     carries it, whatever bare or qualified table names are in scope -/
 theorem explicit_alias_wins (g : LGraph) (grp : List Holder.DObj) (a : String) (e : String × (DS × String))
